@@ -147,6 +147,23 @@ def classify_while(ctx: Ctx, f: Func, loop: ast.While) -> Tuple[str, str]:
             return "V3", f"every iteration performs a consuming read ({attr_tail(reads[0])}) that raises at EOF; exits on a terminator"
         # daemon consumer with sentinel
         return "", "while True loop without a consuming read on every iteration"
+    # V6: `while 0 < len(D) < bound:` ; body: M = read(...); if len(M) == 0: break; D += M   (D grows by >= 1 byte per iteration towards the bound)
+    if isinstance(test, ast.Compare) and len(test.ops) == 2 and all(isinstance(o, (ast.Lt, ast.LtE)) for o in test.ops) \
+            and isinstance(test.comparators[0], ast.Call) and dotted(test.comparators[0].func) == "len" and test.comparators[0].args \
+            and isinstance(test.comparators[0].args[0], ast.Name):
+        dname = test.comparators[0].args[0].id
+        grows = [n for n in body_nodes if isinstance(n, ast.AugAssign) and isinstance(n.op, ast.Add) and isinstance(n.target, ast.Name) and n.target.id == dname
+                 and isinstance(n.value, ast.Name)]
+        for g in grows:
+            m = g.value.id
+            empties = [t for t in body_nodes if isinstance(t, ast.If) and any(isinstance(x, ast.Break) for x in t.body) and (
+                (isinstance(t.test, ast.Compare) and norm(t.test) in (f"len({m}) == 0", f"not {m}")) or (isinstance(t.test, ast.UnaryOp) and norm(t.test.operand) == m))]
+            cfg = cfg_of(f.node)
+            if empties and _every_iteration_passes(f, loop, [g]) is not None:
+                # every path back to the loop test passes the += (the only other way out is the break on an empty chunk)
+                if _every_iteration_passes(f, loop, [g]):
+                    return "V6", f"len({dname}) grows by a non-empty chunk on every iteration towards its bound; an empty chunk breaks"
+        return "", f"unrecognised accumulate-until loop {norm(test)}"
     lv = _loop_var(test)
     if lv is None:
         # `while data:` with data re-read from a source each iteration
@@ -168,6 +185,15 @@ def classify_while(ctx: Ctx, f: Func, loop: ast.While) -> Tuple[str, str]:
                 if srcs and all(isinstance(v, ast.Call) and dotted(v.func) == "min" and any(norm(a) == var for a in v.args) for v in srcs) \
                         and _every_iteration_passes(f, loop, [d]):
                     return "V1", f"{var} decreases by min(block, {var}) on every iteration"
+        # V1b: var -= len(X) on every iteration, the loop is left before that when X is empty  (strictly decreasing by >= 1)
+        for d in dec:
+            if isinstance(d.value, ast.Call) and dotted(d.value.func) == "len" and d.value.args and isinstance(d.value.args[0], ast.Name):
+                x = d.value.args[0].id
+                leaves = [t for t in body_nodes if isinstance(t, ast.If) and any(isinstance(y, (ast.Break, ast.Raise, ast.Return)) for y in t.body)
+                          and norm(t.test) in (f"len({x}) == 0", f"not {x}", f"len({x}) < 1")]
+                cfg = cfg_of(f.node)
+                if leaves and all(cfg.dominates(cfg.by_ast[t], q.node_for(f, d)) for t in leaves[:1]) and _every_iteration_passes(f, loop, [d]):
+                    return "V1", f"{var} decreases by len({x}) >= 1 on every iteration (an empty {x} leaves the loop first)"
         # V5: progress depends on a decoder result
         dec_calls = [c for c in body_nodes if isinstance(c, ast.Call) and attr_tail(c) == "decompress"]
         if dec_calls:
@@ -558,6 +584,70 @@ def r05_5(ctx: Ctx, closure: Dict[str, Func]) -> None:
     ctx.ok("R05.5", f"call graph of closure(read API): {len(graph)} functions, {sum(len(v) for v in graph.values())} edges, no cycle" if not cyc else "cycles found")
 
 
+def r05_8(ctx: Ctx, closure: Dict[str, Func]) -> None:
+    """declared sizes never drive a loop past the end of the file: (a) a loop of the read closure that counts a DECLARED size down while
+    reading from the archive handle leaves (break / raise) when a read comes back short; (b) SevenZipDecompressor._read_data, which feeds
+    every decode loop, notices a short read (the stall detection of R05.1-V5 only ends the loop when the packed input counts as used up;
+    if `consumed` only grows by what the file really delivers, a pack size beyond EOF is never used up); (c) read_utf16 raises when the
+    string is not terminated before the data ends (otherwise every remaining declared name costs MAX_LENGTH iterations)."""
+    n = 0
+    for fq, f in sorted(closure.items()):
+        for lp in [x for x in walk(f.node) if isinstance(x, ast.While)]:
+            lv = _loop_var(lp.test)
+            if lv is None or lv[1] != "down":
+                continue
+            reads = [c for st in lp.body for c in ast.walk(st) if isinstance(c, ast.Call) and attr_tail(c) == "read" and c.args and not (isinstance(c.args[0], ast.Constant))]
+            if not reads or any(isinstance(c, ast.Call) and attr_tail(c) == "decompress" for st in lp.body for c in ast.walk(st)):
+                continue
+            n += 1
+            # the value of the read must be length-tested inside the loop with a leaving branch
+            ok = False
+            for t in [x for st in lp.body for x in ast.walk(st) if isinstance(x, ast.If)]:
+                mentions_len = any(isinstance(y, ast.Call) and dotted(y.func) == "len" for y in ast.walk(t.test)) or isinstance(t.test, (ast.Name, ast.UnaryOp))
+                leaves = any(isinstance(y, (ast.Break, ast.Raise, ast.Return)) for st in t.body + t.orelse for y in ast.walk(st))
+                if mentions_len and leaves:
+                    ok = True
+            ctx.check(ok, "R05.8", f, lp, f"{fq}: the size-countdown read loop leaves on a short read",
+                      f"{fq} counts the declared size `{lv[0]}` down in block steps and never looks at what read() returned: a pack size far beyond the end of the file "
+                      "(2^45 in an 87-byte archive) keeps test() busy for millions of empty reads", construct=f"countdown read loop {lv[0]}")
+    ctx.floor("R05.8", n, 1, "size-countdown read loops in the read closure")
+    rd = ctx.prog.func("compressor", "SevenZipDecompressor._read_data")
+    reads = [c for c in q.calls(rd) if attr_tail(c) == "read"]
+    ctx.floor("R05.8", len(reads), 1, "archive reads in _read_data")
+    short = any(isinstance(t, ast.If) and any(isinstance(y, ast.Call) and dotted(y.func) == "len" for y in ast.walk(t.test)) and
+                any(isinstance(y, (ast.Assign, ast.AugAssign, ast.Raise)) for st in t.body for y in ast.walk(st)) for t in walk(rd.node)
+                if isinstance(t, ast.If) and isinstance(t.test, ast.Compare))
+    ctx.check(short, "R05.8", rd, reads[0] if reads else rd.node, "_read_data accounts for a short read (end of file before the declared packed size)",
+              "SevenZipDecompressor._read_data adds only the bytes the file delivered to `consumed` and never notices a short read: when the declared pack size reaches beyond the end "
+              "of the file the packed input never counts as used up, the stall detection never fires and every decode loop (extract, testzip, packed header) spins forever",
+              construct="_read_data short read")
+    u = ctx.prog.func("archiveinfo", "read_utf16")
+    ok = any(isinstance(t, ast.If) and any(isinstance(y, ast.Raise) for st in t.body for y in ast.walk(st)) and
+             (any(isinstance(y, ast.Call) and dotted(y.func) == "len" for y in ast.walk(t.test)) or isinstance(t.test, ast.UnaryOp)) for t in walk(u.node) if isinstance(t, ast.If))
+    ctx.check(ok, "R05.8", u, u.node, "read_utf16 raises when the data ends inside a name",
+              "read_utf16 does not test for the end of the data: once the names record is used up every remaining DECLARED member costs MAX_LENGTH (65536) empty reads "
+              "(a 48-byte archive declaring 20000 files keeps the constructor busy for minutes) and truncated names are accepted", construct="read_utf16 eof")
+
+
+def r05_9(ctx: Ctx) -> None:
+    """PPMd model memory comes from the archive (coder property `mem`, up to 4 GiB): it is bounded before the decoder is created."""
+    f = ctx.prog.func("compressor", "PpmdDecompressor.__init__")
+    mk = [c for c in q.calls(f) if attr_tail(c) == "Ppmd7Decoder"]
+    ctx.floor("R05.9", len(mk), 1, "Ppmd7Decoder constructions")
+    for c in mk:
+        memarg = c.args[1] if len(c.args) > 1 else None
+        facts = q.facts_at(f, c)
+        bounded = memarg is not None and any(isinstance(cd, ast.Compare) and norm(memarg) in norm(cd) and isinstance(cd.ops[0], (ast.Lt, ast.LtE, ast.Gt, ast.GtE)) for cd, pol in facts)
+        cfg = cfg_of(f.node)
+        for t in cfg.nodes:
+            if t.kind == "test" and memarg is not None and norm(memarg) in norm(t.ast) and cfg.dominates(t, q.node_for(f, c)) and any(
+                    e.kind in ("true", "false") and q.branch_always_raises(cfg, e) for e in t.succ):
+                bounded = True
+        ctx.check(bounded, "R05.9", f, c, "PPMd memory size bounded before allocation",
+                  "PpmdDecompressor passes the archive's `mem` value (up to 0xFFFFFFFF) to pyppmd unchecked: a 92-byte archive requests 4 GiB; under a 3 GiB address-space limit the failed "
+                  "allocation aborts the interpreter (double free, SIGABRT)", construct="ppmd mem unbounded")
+
+
 def run(ctx: Ctx) -> None:
     shared.strict_reads(ctx, "R05.6")
     from . import c20
@@ -569,3 +659,5 @@ def run(ctx: Ctx) -> None:
     r05_2(ctx, closure)
     r05_3(ctx, closure)
     r05_5(ctx, closure)
+    r05_8(ctx, closure)
+    r05_9(ctx)
